@@ -49,6 +49,7 @@ def generate(st):
         'index_name': sw.choice([None, None, None, 'date', 'obs', 'mixed']),
         'unordered': sw.random() < 0.3,        # a version need not list its observation dates in ascending order
         'stamp_offset': sw.choice([0, 0, 0, 0, 3600, 86400, 300 * 86400]),     # publishers may stamp ahead of the clock
+        'obs_base': sw.choice(['past', 'past', 'past', 'straddle', 'future']),     # where the observation dates lie relative to the stamps
         'mirror': sw.random() < 0.25,          # a second, independent store receives every version right after the first
         'branching': sw.random() < 0.3,        # a second consumer keeps an earlier store object and catches up later
     }
@@ -234,6 +235,13 @@ def execute(trace, ctx=None):
     origin = datetime.datetime.fromisoformat(cfg['origin'])
     SimClock.reset(origin)
     base = datetime.datetime(2019, 1, 1)
+    if cfg.get('obs_base') == 'straddle':
+        # a forward-dated series (a dividend or expiry schedule): observation dates on both sides of the publication stamps
+        base = datetime.datetime(origin.year, origin.month, origin.day) - datetime.timedelta(days=2 * (1 if cfg.get('daily_obs', True) else 7))
+        res.probe('observation-dates-straddle-the-stamps')
+    elif cfg.get('obs_base') == 'future':
+        base = datetime.datetime(2041, 1, 1)
+        res.probe('observation-dates-after-every-stamp')
     step_days = 1 if cfg.get('daily_obs', True) else 7
     dates = [base + datetime.timedelta(days=i * step_days) for i in range(max(n, 1) + 64)]
     model = Model()
